@@ -43,12 +43,12 @@ def rule_erf(r):
     elts = hs[0].args[0].elts
     env = {}
     got = [nf.py_expr(nf.strip_broadcast(e), env) for e in elts]
-    x0, x1, xm1, xm2 = (sp.Function("idx")(S("x"), S("[%s]" % k)) for k in ("0", "1", "-1", "-2"))
-    want0 = x0 - (x1 - x0) / 2
-    want2 = xm1 + (xm1 - xm2) / 2
+    ref = lambda text: nf.py_expr(ast.parse(text, mode="eval").body, env)
+    want0 = ref("x[0] - (x[1] - x[0])/2")
+    want2 = ref("x[-1] + (x[-1] - x[-2])/2")
     r.check(nf.equal(got[0], want0), R, "bin_edges", pf.unparse(elts[0]), be.lineno, "first edge = x0 - (x1-x0)/2")
     r.check(nf.equal(got[2], want2), R, "bin_edges", pf.unparse(elts[2]), be.lineno, "last edge = xn + (xn-xn-1)/2")
-    mid = (sp.Function("idx")(S("x"), S("[1:]")) + sp.Function("idx")(S("x"), S("[:-1]"))) / 2
+    mid = ref("(x[1:] + x[:-1])/2")
     r.check(nf.equal(got[1], mid), R, "bin_edges", pf.unparse(elts[1]), be.lineno, "interior edges are midpoints")
 
 
